@@ -229,7 +229,11 @@ struct optional {
     // clang-format on
     constexpr auto operator=(U&& value) -> optional&
     {
-        emplace(etl::forward<U>(value));
+        if (has_value()) {
+            **this = etl::forward<U>(value);
+        } else {
+            emplace(etl::forward<U>(value));
+        }
         return *this;
     }
 
@@ -255,10 +259,12 @@ struct optional {
     // clang-format on
     constexpr auto operator=(optional<U> const& other) -> optional&
     {
-        if (other.has_value()) {
-            emplace(*other);
-        } else {
+        if (not other.has_value()) {
             reset();
+        } else if (has_value()) {
+            **this = *other;
+        } else {
+            emplace(*other);
         }
 
         return *this;
@@ -286,10 +292,12 @@ struct optional {
     // clang-format on
     constexpr auto operator=(optional<U>&& other) -> optional&
     {
-        if (other.has_value()) {
-            emplace(*etl::move(other));
-        } else {
+        if (not other.has_value()) {
             reset();
+        } else if (has_value()) {
+            **this = *etl::move(other);
+        } else {
+            emplace(*etl::move(other));
         }
 
         return *this;
